@@ -359,3 +359,47 @@ specialise(
     bounds="one survey row, column family fixed per instance (label, hint; message columns in both orders are C05.f); the grouped row must equal the canonical spelling in canonical order and hold every cell under its language",
     weight=40,
 )
+
+
+# ---- f: truth spellings of yes/no settings (round 3) ----------------------------------------------------
+TRUE_SP = ["yes", "Yes", "YES", "true", "True", "TRUE", "true()"]
+FALSE_SP = ["no", "No", "NO", "false", "False", "FALSE", "false()"]
+YN_SETTINGS = ["allow_choice_duplicates", "omit_instanceID", "clean_text_values"]
+
+
+def c13_setting_truth(setting: int, truth: bool, sp: int, c0: int) -> bool:
+    """
+    vpre: 0 <= sp <= 6
+    vpre: 97 <= c0 <= 122
+    vpost: _ == True
+    """
+    from harness.common import build_survey, tree
+
+    key = YN_SETTINGS[setting]
+
+    def run(val):
+        rows = [{"type": "text", "name": "q1", "label": S(c0) + "  x"}, {"type": "select_one l1", "name": "q2", "label": "Q2"}]
+        ch = [{"list_name": "l1", "name": "a", "label": "A"}, {"list_name": "l1", "name": "a" if setting == 0 else "b", "label": "B"}]
+        try:
+            survey, w, _js = build_survey({"survey": rows, "choices": ch, "settings": [{key: val}]})
+            return ("ok", tree(survey.xml()), [str(x) for x in w])
+        except PyXFormError as e:
+            return ("error", str(e))
+
+    canonical = run("yes" if truth else "no")
+    other = run((TRUE_SP if truth else FALSE_SP)[sp])
+    return canonical == other
+
+
+specialise(
+    "C13",
+    "f.setting-truth",
+    c13_setting_truth,
+    {"setting": [0, 1, 2], "truth": [False, True]},
+    timeout=300,
+    kernel=("pyxform.xls2json:workbook_to_json", "pyxform.aliases:yes_no"),
+    shims=("S1", "S2", "S3", "S4"),
+    symbolic="spelling of the truth value (symbolic index over 7 documented spellings incl. true()/false()), label tracer",
+    bounds="setting (allow_choice_duplicates with a duplicated choice name, omit_instanceID, clean_text_values with a double space in a label) and truth value fixed per instance; outcome (tree, warnings or error text) compared with the canonical yes/no spelling",
+    weight=30,
+)
